@@ -316,6 +316,48 @@ impl LintRule for Spy {
   }
 }
 
+/// a caller-owned rule that carries one built-in tag (or none) and only records that it ran
+#[derive(Debug)]
+pub struct TagProbe {
+  pub code: &'static str,
+  pub tags: deno_lint::tags::Tags,
+  pub priority: u32,
+  pub ran: Arc<std::sync::atomic::AtomicUsize>,
+}
+impl LintRule for TagProbe {
+  fn code(&self) -> &'static str {
+    self.code
+  }
+  fn priority(&self) -> u32 {
+    self.priority
+  }
+  fn tags(&self) -> deno_lint::tags::Tags {
+    self.tags
+  }
+  fn lint_program_with_ast_view<'v>(&self, _ctx: &mut Context<'v>, _program: Program<'v>) {
+    self.ran.fetch_add(1, std::sync::atomic::Ordering::SeqCst);
+  }
+}
+/// one probe per tag (and one without a tag), with their run counters
+pub fn tag_probes() -> Vec<(Box<dyn LintRule>, &'static str, Arc<std::sync::atomic::AtomicUsize>)> {
+  use deno_lint::tags::*;
+  let specs: [(&'static str, Tags, u32); 6] = [
+    ("zzp-untagged", &[], 0),
+    ("zzp-recommended", &[RECOMMENDED], 0),
+    ("zzp-jsx", &[JSX], 0),
+    ("zzp-react", &[REACT], 7),
+    ("zzp-fresh", &[FRESH], 0),
+    ("zzp-jsr-jsx", &[JSR, JSX], u32::MAX - 5),
+  ];
+  specs
+    .into_iter()
+    .map(|(code, tags, priority)| {
+      let ran = Arc::new(std::sync::atomic::AtomicUsize::new(0));
+      (Box::new(TagProbe { code, tags, priority, ran: ran.clone() }) as Box<dyn LintRule>, code, ran)
+    })
+    .collect()
+}
+
 pub fn with_spy(mut rules: Vec<Box<dyn LintRule>>, want_cf: bool) -> (Vec<Box<dyn LintRule>>, Arc<Mutex<SpyLog>>) {
   let log = Arc::new(Mutex::new(SpyLog { want_cf, ..Default::default() }));
   rules.push(Box::new(Spy(log.clone())));
